@@ -33,6 +33,10 @@ def mk_story(major, nk, expect, login, invpw, order, together, password):
             "case": dict(major=major, name=nk, expect=expect, login=login, invalid_password=invpw, order=order, together=together, password=password)}
 
 
+NAMES = {"e": "", "x": "dev", "o": "other-device", "p": "dev2", "q": "de", "c": "DEV", "-": None}
+OTHER_NAMES = "opqc"
+
+
 def oracle(case):
     """('ok',) | ('err', class) | ('any-error',) from the inputs alone, following the property text."""
     order = case["order"]
@@ -52,7 +56,7 @@ def oracle(case):
         return ("any-error",)
     if case["major"] > 2:
         return ("err", "L.Conn")
-    if case["name"] == "o" and case["expect"]:
+    if case["name"] in OTHER_NAMES and case["expect"]:
         return ("err", "L.BadName")
     if login:
         if len(coll) < 2 or coll[1] != "C":
@@ -99,7 +103,7 @@ def judge(rep, case, out, state, stops, where, replay):
         return
     if exp[0] == "err" and out[1] != exp[1]:
         rep.violation("C06/error-class:" + exp[1], f"{where}: expected {exp[1]}, raised {out[1]}", replay)
-    if exp[0] == "err" and exp[1] == "L.BadName" and out[2] != "other-device":
+    if exp[0] == "err" and exp[1] == "L.BadName" and out[2] != NAMES[case["name"]]:
         rep.violation("C06/bad-name-payload", f"{where}: BadNameAPIError does not carry the received name (got {out[2]!r})", replay)
     if state != "CLOSED":
         rep.violation("C06/not-closed", f"{where}: connect failed but the connection is {state}", replay)
@@ -116,7 +120,7 @@ async def noise_case(loop, case):
     net = simnet.Net(loop)
     psk = bytes(range(1, 33))
     stops = []
-    names = {"e": "", "x": "dev", "o": "other-device", "-": None}
+    names = NAMES
     params = ConnectionParams(addresses=["10.0.0.1"], port=6053, password=case["password"], client_info="v", keepalive=20.0,
                               zeroconf_manager=ZeroconfManager(), noise_psk=noisesim.b64(psk), expected_name="dev" if case["expect"] else None)
     conn = APIConnection(params, lambda e: stops.append(e), False, None)
@@ -164,25 +168,25 @@ async def noise_case(loop, case):
 def noise_oracle(case):
     # the server hello name is checked by the frame helper first (if a name is announced), then the HelloResponse
     if case["server_name"] not in ("-",) and case["expect"] and case["server_name"] != "x":
-        return ("err", "L.BadName", {"e": "", "o": "other-device"}[case["server_name"]])
+        return ("err", "L.BadName", NAMES[case["server_name"]])
     o = oracle(dict(case, order="HC" if case["login"] else "H"))
-    return o + ("other-device",) if o[0] == "err" and o[1] == "L.BadName" else o
+    return o + (NAMES[case["name"]],) if o[0] == "err" and o[1] == "L.BadName" else o
 
 
 def run(rep, tier, seed):
     rng = random.Random(seed)
     connfamily.N_REG = connfamily.n_registered()
     rep.coverage["rule"] = (
-        "plaintext: majors {0,1,2,3,4,2^32-1} x names {empty,expected,other} x expected-name on/off x login on/off x password verdict x response orders "
+        "plaintext: majors {0,1,2,3,4,2^32-1} x names {empty, expected, other, expected+suffix, strict prefix of expected, other case} x expected-name on/off x login on/off x password verdict x response orders "
         "{H,HC,CH,HHC,C,HCC} x {one chunk, separate chunks} x password set/unset (exhaustive in thorough, sampled in quick), each run on the real "
-        "APIConnection with trace validation against Model/Conn.v; noise: server-hello name {absent,empty,expected,other} x HelloResponse name x "
+        "APIConnection with trace validation against Model/Conn.v; noise: server-hello name {absent, empty, expected, other, expected+suffix, prefix, other case} x HelloResponse name x "
         "expected-name x login x verdict x majors {1,3} over real Noise sessions with an independent responder; non-trivial = the device must be rejected; "
         "distinct by case tuple")
     proofs_ok = rep.proofs(VFILE)
     ok, log = common.build_driver()
     if not ok:
         raise RuntimeError("driver build failed: " + log[-2000:])
-    cases = [mk_story(*c) for c in itertools.product(MAJORS, "exo", (0, 1), (0, 1), (0, 1), ORDERS, (1, 0), (None, "pw"))]
+    cases = [mk_story(*c) for c in itertools.product(MAJORS, "exopqc", (0, 1), (0, 1), (0, 1), ORDERS, (1, 0), (None, "pw"))]
     if tier == "quick":
         cases = rng.sample(cases, 500)
     disagreements = []
@@ -211,9 +215,9 @@ def run(rep, tier, seed):
             if dis or problems:
                 disagreements.append({"case": case, "disagreement": dis})
     ncases = [dict(server_name=sn, name=nk, expect=ex, login=lg, invalid_password=ip, major=mj, password=pw)
-              for sn, nk, ex, lg, ip, mj, pw in itertools.product("-exo", "exo", (0, 1), (0, 1), (0, 1), (1, 3), (None, "pw"))]
+              for sn, nk, ex, lg, ip, mj, pw in itertools.product("-exopqc", "exopqc", (0, 1), (0, 1), (0, 1), (1, 3), (None, "pw"))]
     if tier == "quick":
-        ncases = rng.sample(ncases, 160)
+        ncases = rng.sample(ncases, 260)
     for case in ncases:
         out, state, stops = simnet.run(lambda loop: noise_case(loop, case))
         exp = noise_oracle(case)
